@@ -55,7 +55,14 @@ CLAIMED = {
         "text": "Decides the pipeline clause (load -> append the first argument -> save that same dictionary -> refresh -> publish for the same url, each awaited, nothing skippable once the word is appended; file-dictionary load and save resolve the path through the same function of the same url) and the crash clause as a structural fact: save_dict never opens the destination for truncation, it writes a sibling temp file, flushes/syncs and renames it over the destination, so every crash point leaves either the old or the new complete file. The in-place truncation this rule found was repaired (fix F7).",
         "note": "Trusted: rename(2) is atomic on one file system. Not decided: words containing line breaks or differing only in case (values), concurrent writers, the JS import path (decided under C16).",
     },
+    "C09": {
+        "level": "other",
+        "ref": "DESIGN.md section 3, C09",
+        "technique": "must-pass-through / dominance rules on the pre-transform coroutine MIR of every LSP handler (publish after update for the same url; empty publish after removal), who-may-call on the disk-reading refresh with a state-absence guard, await-point census before the doc_state lock",
+        "text": "Decides three structural clauses over all handler paths: (1) every handler that replaces or removes document state publishes for the same URL afterwards on every path, removal handlers publish an empty list, and publish_diagnostics always recomputes from doc_state under the lock; (2) only did_save (and the not-open fallback) may refresh from disk, every other refresh uses the buffer the client sent (three violations found and repaired); (3) ordering discipline: a store is ordered like its request only if no await point precedes the doc_state lock or the store is version-guarded — violated today by update_document and recorded as a known finding with the concrete two-didChange history.",
+        "note": "Assumes tower-lsp 0.20's buffer_unordered(4) arrival-order polling and tokio Mutex FIFO fairness. Not decided: equality of the published diagnostics with those of the newest text (needs execution).",
+    },
 }
 
 _TODO = "static rules for this property are specified in DESIGN.md section 3 but not yet implemented and self-tested; unclaimed until they are"
-NOT_APPLICABLE = {k: _TODO for k in ["C01", "C02", "C03", "C04", "C05", "C06", "C08", "C09", "C12", "C17", "C18"]}
+NOT_APPLICABLE = {k: _TODO for k in ["C01", "C02", "C03", "C04", "C05", "C06", "C08", "C12", "C17", "C18"]}
